@@ -217,6 +217,7 @@ TitleLike(sep, l1) == IF sep = "none" /\ last.inner = "def" /\ l1 # << >> /\ Sub
 
 (* tag "nc": the document uses a spelling the Markdown renderer does not write itself (it is not in the renderer's normal form) *)
 NcIf(c) == IF c THEN {"nc"} ELSE {}
+NormalForm == "nc" \notin tags             \* (state constraint of the configuration that enumerates the renderer's normal form with the full spelling ranges)
 NcSep(sep) == NcIf((sep = "blank" /\ InQuote) \/ sep = "blankt")
 
 (* may `next` follow the previous sibling without a blank line?  (CommonMark: what may interrupt a paragraph; nothing
@@ -286,6 +287,7 @@ TypePara ==
            l1 == LineAt(v)
            two == (v % 2 = 1) \/ keep < Depth
            hard == two /\ Level = 2 /\ v % 4 = 3
+           hardsp == two /\ Level = 2 /\ v % 8 = 1               \* the other spelling of a hard line break: two spaces before the line end
            (* the indentation of the first line spelled as a tab: it reaches the next tab stop, counted from the beginning of the
               line - fewer than four columns (so no indented code) exactly when the container prefix does not end on a tab stop *)
            tab == Level = 2 /\ v % 7 = 3 /\ AllStarted /\ last.kind # "list" /\ Len(LineNow("x")) % 4 # 1
@@ -296,10 +298,10 @@ TypePara ==
        /\ IndOk(ind)
        /\ (keep < Depth => v % 2 = 0)                            \* one lazy spelling per variant pair is enough
        /\ LET l2 == IF notable THEN <<W("|---|")>> ELSE <<W(WordAt(nblocks + 7)), W("cont")>>
-              tx == IF notable THEN <<[atoms |-> <<W("| h1 | h2 |")>>, hard |-> FALSE], [atoms |-> l2, hard |-> FALSE]>> ELSE IF two THEN <<[atoms |-> l1, hard |-> hard], [atoms |-> l2, hard |-> FALSE]>> ELSE <<[atoms |-> l1, hard |-> FALSE]>>
+              tx == IF notable THEN <<[atoms |-> <<W("| h1 | h2 |")>>, hard |-> FALSE], [atoms |-> l2, hard |-> FALSE]>> ELSE IF two THEN <<[atoms |-> l1, hard |-> hard \/ hardsp], [atoms |-> l2, hard |-> FALSE]>> ELSE <<[atoms |-> l1, hard |-> FALSE]>>
               lead == IF tab THEN "{TAB}" ELSE Spaces(ind)
               lines == IF notable THEN <<"| h1 | h2 |", "|---|">>
-                       ELSE IF two THEN <<lead \o LineSrc(l1) \o (IF hard THEN "\\" ELSE ""), LineSrc(l2)>> ELSE <<lead \o LineSrc(l1)>> IN
+                       ELSE IF two THEN <<lead \o LineSrc(l1) \o (IF hard THEN "\\" ELSE IF hardsp THEN "  " ELSE ""), LineSrc(l2)>> ELSE <<lead \o LineSrc(l1)>> IN
           /\ Leaf("para", "para", sep, Node("Paragraph", Parent, 0, 0, tx, ""), lines, keep)
           /\ tags' = tags \cup (IF keep < Depth THEN {"lazy-continuation"} ELSE {}) \cup LazyTag(sep)
                           \cup (IF keep < Depth /\ KF_LazyIndented(keep, ind) THEN {"lazy-after-indented-quote-content"} ELSE {})
@@ -352,7 +354,7 @@ TypeHr ==
        /\ tags' = tags \cup NcSep(sep) \cup NcIf(ind > 0 \/ Trail(v) # "")
 
 Bodies == Pick(<< <<"a", "", "  b">> >>, << << >>, <<"a", "", "  b">> >>,
-               << << >>, <<"code">>, <<"a", "", "  b">>, <<"# not a heading", "> nor a quote">>, <<"- x", "***">> >>)
+               << << >>, <<"code">>, <<"a", "", "  b">>, <<"# not a heading", "> nor a quote">>, <<"- x", "***">>, <<"x = 1  ", "y">> >>)      \* (the last one: spaces at the end of a code line are content)
 
 TypeFence ==
     \E sep \in Seps, v \in Variants :
